@@ -274,11 +274,23 @@ fn random_history(t: &mut Tape, gates: &Gates) -> Vec<Note> {
             } else {
                 spell_unit(&unit, gates)
             };
-            let text = match t.below(6) {
+            let text = match t.below(8) {
                 0 => text.replacen(';', " ", 1),
                 1 => text.replacen("END_", "?END_", 1),
+                // the text ends too early (the diagnostic sits at the end of input) ...
+                2 => {
+                    let cut = text.rfind("END_").unwrap_or(text.len());
+                    format!("{}\n\n  \n", &text[..cut])
+                }
                 _ => text,
             };
+            // ... and every text also without / with more trailing blank space
+            if t.ratio(1, 3) {
+                docs[u].push(text.trim_end().to_string());
+            }
+            if t.ratio(1, 4) {
+                docs[u].push(format!("{}\n \n", text));
+            }
             docs[u].push(text);
         }
     }
